@@ -174,9 +174,10 @@ class LoopSpec:
     state(k, pre, it) -> {name: value} after k completed iterations; `pre` is the environment at
     loop entry; `it` gives access to the iterable (it.elem(j), it.count)."""
 
-    def __init__(self, state, ghosts=None, after=None):
+    def __init__(self, state, ghosts=None, after=None, after_body=None):
         self.state = state
         self.after = after
+        self.after_body = after_body      # proof steps on the preservation path, between the body and the comparison
 
 
 class IterView:
@@ -651,6 +652,8 @@ class Frame:
                 raise Unsupported("break inside a symbolic loop")
             except ReturnEx:
                 raise Unsupported("return inside a symbolic loop")
+            if spec.after_body is not None:
+                spec.after_body(self, k, pre, itv)
             st1 = spec.state(simp(k + 1), pre, itv)
             for name, v in st1.items():
                 if name not in self.env:
